@@ -97,6 +97,19 @@ def build_steps(g):
             inner = r.choice([q for q in cand if q[1].startswith(fp + '/')])
             ph = r.choice([x for x in docs.PLACEHOLDERS if x[0] not in '{['])
             steps.append((docs.any_matcher([gp, inner[0]], ph), None, None, True))
+        elif k < 0.46 and any(isinstance(q[2], list) and q[2] and all(isinstance(e, dict) and 'first' in e for e in q[2]) for q in cand):
+            # one path that addresses SEVERAL values: a member of every element of an array of records
+            lgp, lfp, lv = r.choice([q for q in cand if isinstance(q[2], list) and q[2] and all(isinstance(e, dict) and 'first' in e for e in q[2])])
+            member = r.choice(['first', 'age'])
+            ph = r.choice(docs.PLACEHOLDERS)
+            targets = ['%s/%d/%s' % (lfp, i, member) for i in range(len(lv))]
+            kind_ = r.random()
+            if kind_ < 0.6:
+                steps.append((docs.any_matcher(['%s.#.%s' % (lgp, member)], ph), targets, json.loads(ph), False))
+            else:
+                steps.append((docs.custom_matcher('%s.#.%s' % (lgp, member), True, ph), targets, json.loads(ph), False))
+            for t_ in targets:
+                set_path(cur, t_, json.loads(ph))
         elif k < 0.60:
             ph = r.choice(docs.PLACEHOLDERS)
             steps.append((docs.any_matcher([gp], ph), [fp], json.loads(ph), False))
